@@ -96,11 +96,15 @@ func (ks *FSKeystore) Put(name string, k ci.PrivKey) error {
 		}
 		return fmt.Errorf("cannot create keystore file %q: %w", kp, err)
 	}
-	defer fi.Close()
 
-	_, err = fi.Write(b)
+	if _, err = fi.Write(b); err != nil {
+		// do not leave a truncated key file behind: it would shadow the name
+		fi.Close()
+		os.Remove(kp)
+		return err
+	}
 
-	return err
+	return fi.Close()
 }
 
 // Get retrieves a key from the Keystore if it exists, and returns ErrNoSuchKey
